@@ -476,7 +476,7 @@ class TransactionManager(Elaboratable):
         for transaction in joined_transactions:
             method = Method(name=transaction.name, src_loc=transaction.src_loc)
             method._set_impl(transaction)
-            DependencyContext.get().add_dependency(ProvidedMethodsKey(), method)
+            self.provided_methods.append(method)
             methods[transaction] = method
             self.methods.append(method)
 
@@ -514,8 +514,10 @@ class TransactionManager(Elaboratable):
     def elaborate(self, platform):
         self.transactions = DependencyContext.get().get_dependency(TransactionsKey())
         self.methods = DependencyContext.get().get_dependency(DefinedMethodsKey())
+        # methods defined by `provide` share the body of their target; relations declared on them belong to that body
+        self.provided_methods = list(DependencyContext.get().get_dependency(ProvidedMethodsKey()))
 
-        for elem in chain(self.transactions, self.methods):
+        for elem in chain(self.transactions, self.methods, self.provided_methods):
             for relation in elem.relations:
                 elem._body.relations.append(RelationBase(**{**dataclass_asdict(relation), "end": relation.end._body}))
             for elem2 in elem.simultaneous_list:
@@ -560,8 +562,7 @@ class TransactionManager(Elaboratable):
 
         # Signals assigned here because `method.provide` sometimes needs to be used without a TModule.
         # Unfortunately, assignments across modules seem to cause a performance hit in pysim.
-        provided_methods = DependencyContext.get().get_dependency(ProvidedMethodsKey())
-        for method in chain(provided_methods):
+        for method in self.provided_methods:
             m.d.comb += method.ready.eq(method._body.ready)
             m.d.comb += method.run.eq(method._body.run)
             m.d.comb += method.data_in.eq(method._body.data_in)
